@@ -407,11 +407,12 @@ def generate(rng, tier):
 
 # ---------------------------------------------------------------------------------------------
 @contextlib.contextmanager
-def taps(log, sizes):
+def taps(log, sizes, loads_in=None):
     import rx.operators as ops
+    import rxsci.container.json as rjson
     import rxsci.framing.line as line
     import rxsci.io.file as file
-    orig_unframe, orig_read = line.unframe, file.read
+    orig_unframe, orig_read, orig_load = line.unframe, file.read, rjson.load
 
     def unframe():
         inner = orig_unframe()
@@ -425,11 +426,20 @@ def taps(log, sizes):
 
     def read(*a, **k):
         return orig_read(*a, **k).pipe(ops.do_action(on_next=lambda d: sizes.append(len(d))))
+
+    def load(*a, **k):          # doc cases: the items that enter json.load
+        inner = orig_load(*a, **k)
+
+        def _op(source):
+            return source.pipe(ops.do_action(on_next=loads_in.append), inner)
+        return _op
     line.unframe, file.read = unframe, read
+    if loads_in is not None:
+        rjson.load = load
     try:
         yield
     finally:
-        line.unframe, file.read = orig_unframe, orig_read
+        line.unframe, file.read, rjson.load = orig_unframe, orig_read, orig_load
 
 
 def group(log):
@@ -506,14 +516,15 @@ def run_impl(case):
     kw = {'open_obj': my_open} if case['open_obj'] else {}
     comp, enc = case['comp'], case['enc']
     obs = {}
-    if case['kind'] == 'hand':
-        objs = None
-        raw = case['text'].encode(enc)
+    is_doc = case['kind'] == 'doc'
+    if case['kind'] == 'hand' or (is_doc and case['writer'] == 'harness'):
+        objs = [doc_obj(case)] if is_doc else None
+        raw = (doc_serialise(objs[0], case) if is_doc else case['text']).encode(enc)
         data = gzip.compress(raw) if comp == 'gzip' else zstandard.ZstdCompressor().compress(raw) if comp == 'zstd' else raw
         with open(path, 'wb') as f:
             f.write(data)
     else:
-        objs = case['objs'] if case['kind'] == 'small' else big_objs(case)
+        objs = case['objs'] if case['kind'] == 'small' else [doc_obj(case)] if is_doc else big_objs(case)
         end = []
         rx.from_(objs).pipe(rjson.dump_to_file(path, compression=comp, encoding=enc, **kw)).subscribe(
             on_next=lambda i: end.append('next'), on_error=lambda e: end.append('error:' + type(e).__name__),
@@ -533,7 +544,10 @@ def run_impl(case):
             obs['dump_out'] = sum(d['steps'], []) + d['final']
     obs['fsize'] = os.path.getsize(path) if os.path.exists(path) else 0
     log, sizes, items, lend = [], [], [], []
-    with taps(log, sizes), contextlib.redirect_stdout(io.StringIO()):
+    loads_in = [] if is_doc else None
+    if is_doc:
+        kw['lines'] = case['lines']          # False: the file is ONE JSON document
+    with taps(log, sizes, loads_in), contextlib.redirect_stdout(io.StringIO()):
         rjson.load_from_file(path, skip=case['skip'], ignore_error=case['ignore'], compression=comp, encoding=enc, **kw
                              ).subscribe(on_next=items.append, on_error=lambda e: lend.append('error:' + type(e).__name__),
                                          on_completed=lambda: lend.append('completed'))
@@ -556,6 +570,34 @@ def run_impl(case):
         obs['max_chunk_chars'] = max([len(c) for c in chunks] or [0])
         obs['segs'] = [[len(p) for p in c.split('\n')] for c in chunks]
         obs['lens_out'] = [[len(l) for l in o] for o in outs]
+        return obs
+    if is_doc:
+        # the text items that entered load, by key: '' -> [], the k-th distinct non-empty text -> [k]
+        ids, keys, fresh, tbl = {canon(objs[0]): 1}, {}, [2], []
+
+        def doc_ident(v):
+            if v is None:
+                return 0
+            k = canon(v)
+            if k not in ids:
+                ids[k] = fresh[0]
+                fresh[0] += 1
+            return ids[k]
+        doc_chunks = []
+        for t in loads_in:
+            if len(t) == 0:
+                doc_chunks.append([])
+                continue
+            if t not in keys:
+                keys[t] = len(keys) + 1
+                try:
+                    tbl.append([keys[t], doc_ident(orjson.loads(t))])
+                except Exception:
+                    tbl.append([keys[t], None])
+            doc_chunks.append([keys[t]])
+        obs.update({'text_items': [len(t) for t in loads_in], 'doc_chunks': doc_chunks, 'tbl': tbl,
+                    'item_ids': [doc_ident(o) for o in items], 'bufsize': io.DEFAULT_BUFFER_SIZE,
+                    'unframe_chunks': len(chunks)})
         return obs
     # small / hand: everything goes to Coq in full
     ids, texts = {}, ['null']
@@ -592,8 +634,19 @@ def oracle(case, obs):
         return None
     if 'raised' in obs:
         return {'sig': 'json:raised', 'what': 'raised %s: %s' % (obs['raised'], obs.get('msg'))}
-    if obs['dump_end'] != ['completed']:
+    if obs.get('dump_end', ['completed']) != ['completed']:
         return {'sig': 'json:dump-failed', 'what': 'dump_to_file ended with %s' % obs['dump_end'][-2:]}
+    if case['kind'] == 'doc':
+        # lines=False: the file holds one document; exactly [that object] must come back
+        where = 'lines=False, one %s-written document, compression=%s, %d bytes on disk' % (
+            case['writer'], case['comp'], obs['fsize'])
+        if obs['load_end'] != ['completed']:
+            return {'sig': 'json:doc-load-error', 'what': 'load_from_file ended with %s after %d items (%s)'
+                    % (obs['load_end'], obs['n_items'], where)}
+        if not obs['items_equal']:
+            return {'sig': 'json:doc-differs', 'what': '%d items read back instead of exactly the one document (%s)'
+                    % (obs['n_items'], where)}
+        return None
     if obs['load_end'] != ['completed']:
         return {'sig': 'json:load-error', 'what': 'load_from_file ended with %s after %d of %d items'
                 % (obs['load_end'], obs['n_items'], max(0, obs['n_objs'] - case['skip']))}
@@ -608,15 +661,21 @@ def nontrivial(case, obs):
         return False
     if case['kind'] == 'big':
         return len(obs['read_sizes']) >= 2 or obs['max_chunk_chars'] > MIB
+    if case['kind'] == 'doc':
+        return obs['fsize'] > READ
     t = ''.join(obs['texts'])
     return len(case['objs']) >= 2 and (any(ord(c) > 127 for c in t) or '\\n' in t)
 
 
 def describe(cases, obs):
-    d = {'small': 0, 'hand': 0, 'big': 0, 'comp': {}, 'enc': {}, 'max_file_size': 0, 'max_read_chunks': 0,
+    doc = {'by_comp': {}, 'by_writer': {}, 'by_flavour': {}, 'file_larger_than_one_64KiB_read_chunk_by_comp': {},
+           'max_file_size_by_comp': {}, 'max_64KiB_chunks_on_disk': 0, 'raw_stream': 0, 'indented_multi_line_document': 0,
+           'harness_written_without_trailing_newline': 0, 'ignore_error': 0,
+           'file_size_exactly_k_x_64KiB_(-1|0|+1)': 0, 'max_read_calls_of_one_readall': 0}
+    d = {'small': 0, 'hand': 0, 'big': 0, 'doc': 0, 'doc_cases (lines=False, one document per file)': doc, 'comp': {}, 'enc': {}, 'max_file_size': 0, 'max_read_chunks': 0,
          'straddle_cases': 0, 'file_content_not_jsonl (informational)': 0, 'custom_open_obj': 0, 'with_skip': 0,
          'objects_total': 0, 'max_text_chunks': 0,
-         'raw_stream_cases (open_obj reader returns short reads)': {'small': 0, 'hand': 0, 'big': 0},
+         'raw_stream_cases (open_obj reader returns short reads)': {'small': 0, 'hand': 0, 'big': 0, 'doc': 0},
          'raw_stream_by_comp': {}, 'short_reads_before_eof_total': 0, 'max_read_calls_one_file': 0,
          'redundant_payload_cases': {}, 'max_uncompressed_text_chars': 0,
          'max_text_chars_out_of_one_read_chunk': {}}
@@ -641,6 +700,22 @@ def describe(cases, obs):
             # a delivered chunk shorter than the 64 KiB asked while more data followed
             d['short_reads_before_eof_total'] += sum(1 for n in o['read_sizes'][:-1] if n < READ)
             d['max_read_calls_one_file'] = max(d['max_read_calls_one_file'], len(o.get('caps', [])))
+        if c['kind'] == 'doc':
+            for k, v in (('by_comp', comp), ('by_writer', c['writer']), ('by_flavour', c['flavour'])):
+                doc[k][v] = doc[k].get(v, 0) + 1
+            if o['fsize'] > READ:
+                m = doc['file_larger_than_one_64KiB_read_chunk_by_comp']
+                m[comp] = m.get(comp, 0) + 1
+            m = doc['max_file_size_by_comp']
+            m[comp] = max(m.get(comp, 0), o['fsize'])
+            doc['max_64KiB_chunks_on_disk'] = max(doc['max_64KiB_chunks_on_disk'], -(-o['fsize'] // READ))
+            doc['raw_stream'] += 1 if c.get('raw') else 0
+            doc['indented_multi_line_document'] += 1 if c['writer'] == 'harness' and c['indent'] is not None else 0
+            doc['harness_written_without_trailing_newline'] += 1 if c['writer'] == 'harness' and c['tail'] == '' else 0
+            doc['ignore_error'] += 1 if c['ignore'] else 0
+            doc['file_size_exactly_k_x_64KiB_(-1|0|+1)'] += 1 if c['comp'] is None and (o['fsize'] + 1) % READ <= 2 \
+                and o['fsize'] > 2 else 0
+            doc['max_read_calls_of_one_readall'] = max(doc['max_read_calls_of_one_readall'], len(o.get('caps', [])))
         if c['kind'] == 'big':
             if c['flavour'] == 'redundant':
                 d['redundant_payload_cases'][comp] = d['redundant_payload_cases'].get(comp, 0) + 1
@@ -665,6 +740,12 @@ def coq_term(case, obs):
     if 'raised' in obs:
         return 'CRaised'
     completed = obs['load_end'] == ['completed']
+    if case['kind'] == 'doc':
+        return 'CDoc %s %s %s %s %s %s %s %s %s %s' % (
+            c_N(obs['fsize']), c_N(obs['bufsize']), c_opt(obs['caps'] if case.get('raw') else None, c_nlist),
+            c_nlist(obs['read_sizes']), c_list([c_zlist(k) for k in obs['doc_chunks']]),
+            c_list(['(%s, %s)' % (c_zlist([k]), c_opt(v, c_N)) for k, v in obs['tbl']]),
+            c_nat(case['skip']), c_bool(case['ignore']), c_nlist(obs['item_ids']), c_bool(completed))
     if case['kind'] == 'big':
         return 'CBig %s %s %s %s %s %s %s %s %s' % (
             c_N(obs['fsize']), c_N(READ), c_opt(obs['caps'] if case.get('raw') else None, c_nlist), c_nlist(obs['read_sizes']), c_list([c_nlist(s) for s in obs['segs']]),
@@ -678,6 +759,8 @@ def coq_term(case, obs):
 
 
 def coq_model_expr(case):
+    if case['kind'] == 'doc':
+        return '(doc_read_sizes 0, doc_read_sizes 70000, z_json_load [([1]%Z, Some 1%N)] 0 false [[1]; []]%Z)'
     if case['kind'] == 'big':
         return 'len_run_timed 0 [[2; 3]; [4]; [0; 0; 1]]%N'
     text = case.get('text') or ''.join(orjson.dumps(o).decode() + '\n' for o in case['objs'])
@@ -685,6 +768,10 @@ def coq_model_expr(case):
 
 
 def neighbours(case, rng):
+    if case['kind'] == 'doc':
+        return [gen_doc(rng, 'search') for _ in range(10)] + \
+               [gen_doc(rng, 'search', comp=case['comp'], size=rng.randrange(2 * READ, 8 * READ), flavour='blob')
+                for _ in range(4)]
     return [gen_small(rng) for _ in range(20)] + ([gen_big(rng, 'search')] if case['kind'] == 'big' else [])
 
 
